@@ -1,10 +1,15 @@
 package sim
 
 import (
+	"bufio"
+	"encoding/json"
+	"encoding/xml"
 	"errors"
+	"flag"
 	"fmt"
 	"io"
 	"strings"
+	"testing/iotest"
 	"unicode/utf8"
 
 	"dsim/ref"
@@ -410,6 +415,52 @@ var textProducers = []struct {
 	{"Sprintln", 'g', func(d D) string { s := fmt.Sprintln(d); return s[:len(s)-1] }},
 	{"Sprint(d,d)", 'g', func(d D) string { s := fmt.Sprint(d, d); return s[:len(s)/2] }},
 	{"Sprintf(map%v)", 'g', func(d D) string { s := fmt.Sprintf("%v", map[int]D{1: d}); return s[len("map[1:") : len(s)-1] }},
+	// other real peers of the text form: fmt.Append, a pointer to the value,
+	// encoding/xml (attribute and character data go through MarshalText) and
+	// encoding/json map keys (MarshalText as well)
+	{"fmt.Append", 'g', func(d D) string { return string(fmt.Append(nil, d)) }},
+	{"Sprint(&d)", 'g', func(d D) string { return fmt.Sprint(&d) }},
+	{"xml attr", 'g', func(d D) string {
+		b, err := xml.Marshal(xmlAttrDoc{A: d})
+		return cutBetween(string(b), err, `a="`, `"`)
+	}},
+	{"xml chardata", 'g', func(d D) string {
+		b, err := xml.Marshal(xmlElemDoc{A: d})
+		return cutBetween(string(b), err, "<A>", "</A>")
+	}},
+	{"json map key", 'g', func(d D) string {
+		b, err := json.Marshal(map[D]int{d: 1})
+		return cutBetween(string(b), err, `{"`, `":1}`)
+	}},
+}
+
+type xmlAttrDoc struct {
+	XMLName xml.Name `xml:"r"`
+	A       D        `xml:"a,attr"`
+}
+
+type xmlElemDoc struct {
+	XMLName xml.Name `xml:"r"`
+	A       D
+}
+
+// cutBetween returns the part of s between the first pre and the following
+// post; a peer that failed or produced something else shows up as its error
+// text or its whole output (which no reference rendering equals).
+func cutBetween(s string, err error, pre, post string) string {
+	if err != nil {
+		return "peer failed: " + err.Error()
+	}
+	i := strings.Index(s, pre)
+	if i < 0 {
+		return s
+	}
+	rest := s[i+len(pre):]
+	j := strings.Index(rest, post)
+	if j < 0 {
+		return s
+	}
+	return rest[:j]
 }
 
 // textConsumers read a numeral back.
@@ -422,7 +473,45 @@ var textConsumers = []struct {
 	{"Sscan", func(s string) (D, error) { var d D; _, err := fmt.Sscan(s, &d); return d, err }},
 	{"Sscanf(%v)", func(s string) (D, error) { var d D; _, err := fmt.Sscanf(s, "%v", &d); return d, err }},
 	{"Sscanln", func(s string) (D, error) { var d D; _, err := fmt.Sscanln(s, &d); return d, err }},
+	// the standard library's own misbehaving readers under fmt.Fscan
+	{"Fscan(OneByteReader)", func(s string) (D, error) {
+		var d D
+		_, err := fmt.Fscan(iotest.OneByteReader(strings.NewReader(s)), &d)
+		return d, err
+	}},
+	{"Fscan(DataErrReader)", func(s string) (D, error) {
+		var d D
+		_, err := fmt.Fscan(iotest.DataErrReader(strings.NewReader(s)), &d)
+		return d, err
+	}},
+	{"Fscan(bufio(HalfReader))", func(s string) (D, error) {
+		var d D
+		_, err := fmt.Fscan(bufio.NewReaderSize(iotest.HalfReader(strings.NewReader(s)), 16), &d)
+		return d, err
+	}},
+	// other real peers of UnmarshalText
+	{"xml attr", func(s string) (D, error) {
+		doc := xmlAttrDoc{A: staleDecimal()}
+		err := xml.Unmarshal([]byte(`<r a="`+s+`"></r>`), &doc)
+		return doc.A, err
+	}},
+	{"xml chardata", func(s string) (D, error) {
+		doc := xmlElemDoc{A: staleDecimal()}
+		err := xml.Unmarshal([]byte("<r><A>"+s+"</A></r>"), &doc)
+		return doc.A, err
+	}},
+	{"flag.TextVar", func(s string) (D, error) {
+		d := staleDecimal()
+		fs := flag.NewFlagSet("x", flag.ContinueOnError)
+		fs.SetOutput(io.Discard)
+		fs.TextVar(&d, "v", D{}, "")
+		err := fs.Parse([]string{"-v=" + s})
+		return d, err
+	}},
 }
+
+// staleDecimal is what a destination holds before a peer decodes into it.
+func staleDecimal() D { return decimal128.New(-987654321, 77) }
 
 func init() {
 	reg("String", func(x *Ctx, op *Op, r *Result) {
